@@ -16,6 +16,7 @@ fn main() {
     let mut replay_file = None;
     let mut scale = 1.0f64;
     let mut write_evidence = true;
+    let mut emit_corpus: Option<String> = None;
     let mut explicit_tier = None;
     let mut i = 0;
     while i < args.len() {
@@ -27,6 +28,7 @@ fn main() {
             "--replay" => { i += 1; replay_file = args.get(i).cloned(); }
             "--scale" => { i += 1; scale = args.get(i).and_then(|s| s.parse().ok()).unwrap_or(1.0); }
             "--no-evidence" => write_evidence = false,
+            "--emit-corpus" => { i += 1; emit_corpus = args.get(i).cloned(); }
             "--list" => {
                 for p in props::all() {
                     println!("{} {} ({} sub-checks)", p.id, p.title, p.subchecks.len());
@@ -50,6 +52,24 @@ fn main() {
         None => { eprintln!("unknown property {}", prop); std::process::exit(2) }
     };
     install_silent_panic_hook();
+    if let Some(dir) = emit_corpus {
+        // seed corpus for the libFuzzer target: a few generated cases per sub-check and class
+        let _ = std::fs::create_dir_all(&dir);
+        let findings = vcore::engine::Findings::default();
+        let mut n = 0;
+        for (si, sc) in p.subchecks.iter().enumerate() {
+            let rep = vcore::engine::run_subcheck(p.id, sc, seed.unwrap_or(DEFAULT_SEED), 0, 64, &findings);
+            for (_, raws) in rep.sample_raws.iter() {
+                for raw in raws {
+                    let bytes = vcheck::raw_to_bytes(0, (si % 256) as u8, raw);
+                    let _ = std::fs::write(format!("{}/seed-{}-{:03}", dir, p.id, n), bytes);
+                    n += 1;
+                }
+            }
+        }
+        println!("wrote {} corpus files to {}", n, dir);
+        return;
+    }
     if let Some(f) = replay_file {
         std::process::exit(replay(&p, &f));
     }
